@@ -21,12 +21,17 @@ using namespace vc;
 #  define C03_PTR uint16_t
 #endif
 using PtrT = C03_PTR;
+#ifdef C03_LOG
+// pointer-wide (64-bit) representation over a 2^C03_LOG region: equal width is not equal representation
+using Cfg = mb::cfg<PtrT, mb::abi_lp32, mb::C03_MODE, 4, false, C03_LOG>;
+#else
 using Cfg = mb::cfg<PtrT, mb::abi_lp32, mb::C03_MODE, 4>;
+#endif
 using SB = mb::mbox<Cfg>;
 using sbx_t = rlbox::rlbox_sandbox<SB>;
 template<class T>
 using tn = rlbox::tainted<T, SB>;
-using VSG = std::conditional_t<sizeof(PtrT) == 2, VS_lp32_p16, VS_lp32_p32>;
+using VSG = std::conditional_t<sizeof(PtrT) == 2, VS_lp32_p16, std::conditional_t<sizeof(PtrT) == 4, VS_lp32_p32, VS_lp32_p64>>;
 
 static sbx_t* g_sb;
 static sbx_t* g_other;
@@ -182,18 +187,18 @@ static void deref_state(uint64_t off, const std::vector<uint64_t>& reps)
 }
 
 // ---- guest code for the positions sweep -----------------------------------------------------------
-int* ret_ptr(unsigned long r);
-int call_with_ptr(int (*cb)(int*), unsigned long r);
-VS ret_struct(unsigned long r);
-static PtrT guest_ret_ptr(uint32_t r) { return (PtrT)r; }
+int* ret_ptr(unsigned long long r);
+int call_with_ptr(int (*cb)(int*), unsigned long long r);
+VS ret_struct(unsigned long long r);
+static PtrT guest_ret_ptr(uint64_t r) { return (PtrT)r; }
 static tn<int*> g_cb_seen;
-static int32_t guest_call_with_ptr(PtrT cb, uint32_t r)
+static int32_t guest_call_with_ptr(PtrT cb, uint64_t r)
 {
   auto* s = SB::current();
   auto f = (int32_t(*)(PtrT))s->rep_to_fn(cb);
   return f((PtrT)r);
 }
-static rlbox::Sbx_vlib_VS<SB> guest_ret_struct(uint32_t r)
+static rlbox::Sbx_vlib_VS<SB> guest_ret_struct(uint64_t r)
 {
   rlbox::Sbx_vlib_VS<SB> s{};
   s.p = (PtrT)r;
@@ -222,9 +227,9 @@ static void positions(uint64_t r)
       n_abort++;
     }
   };
-  one("invoke-result", [&] { return g_sb->invoke_sandbox_function(ret_ptr, (unsigned long)r); });
+  one("invoke-result", [&] { return g_sb->invoke_sandbox_function(ret_ptr, (unsigned long long)r); });
   if (!g_cb) g_cb.emplace(g_sb->register_callback(cb_ptr));
-  one("callback-argument", [&] { g_cb_seen = nullptr; g_sb->invoke_sandbox_function(call_with_ptr, *g_cb, (unsigned long)r); return g_cb_seen; });
+  one("callback-argument", [&] { g_cb_seen = nullptr; g_sb->invoke_sandbox_function(call_with_ptr, *g_cb, (unsigned long long)r); return g_cb_seen; });
   // memory cell, array element, struct field (by pointer and by value)
   PtrT rep = (PtrT)r;
   memcpy(reinterpret_cast<void*>(g_base + 0x100), &rep, sizeof rep);
@@ -237,7 +242,7 @@ static void positions(uint64_t r)
   memcpy(reinterpret_cast<void*>(g_base + 0x300), &gs, sizeof gs);
   one("struct-field", [&] { tn<int*> v = mkp<VS>(0x300)->p; return v; });
   one("struct-by-value-field", [&] { tn<VS> s = *mkp<VS>(0x300); return s.p; });
-  one("struct-result-field", [&] { auto s = g_sb->invoke_sandbox_function(ret_struct, (unsigned long)r); return s.p; });
+  one("struct-result-field", [&] { auto s = g_sb->invoke_sandbox_function(ret_struct, (unsigned long long)r); return s.p; });
   one("copy_and_verify-struct-field", [&] {
     auto ps = mkp<VS>(0x300);
     tn<int*> got = nullptr;
@@ -420,8 +425,21 @@ int main(int argc, char** argv)
       }
       stat("sweep32_done", 1);
     } else {
+      std::vector<uint64_t> reps;
       for (i128 v : lattice128())
-        if (v >= 0 && v <= 0xffffffffll && mine((uint64_t)v)) positions((uint64_t)v);
+        if (v >= 0 && v <= (i128)(u128)std::numeric_limits<PtrT>::max()) reps.push_back((uint64_t)v);
+      if (sizeof(PtrT) == 8) {
+        // representations that look like host addresses: of this region, of the other live instance, of application objects
+        static int app_global;
+        int app_local = 0;
+        for (uint64_t o : { (uint64_t)0, (uint64_t)0x10, kSize - 4, kSize, kSize + 0x10 }) { reps.push_back(g_base + o); reps.push_back(g_obase + o); reps.push_back(g_base - 0x1000 + o); }
+        reps.push_back((uint64_t)(uintptr_t)&app_global);
+        reps.push_back((uint64_t)(uintptr_t)&app_local);
+        reps.push_back((uint64_t)(uintptr_t)&positions);
+        for (uint64_t k = 16; k < 64; k++) { reps.push_back((1ull << k) | 0x30); reps.push_back((1ull << k) - 8); }
+      }
+      for (uint64_t v : reps)
+        if (mine(v ^ (v >> 17))) positions(v);
     }
   }
   // C. allocation answers, app pointers
